@@ -15,6 +15,8 @@ import vf
 VERIF = vf.VERIF
 REPO = vf.REPO
 
+_SUF = r'_(ovl|wu|wv|uv|wuv|ds|an|ad|ra|rb|ab|rab|ru|nq|nr|dq|dr|nqdr|nd|d3|d|null|p1|p2|p3|p4|multi|safety|int|pow2)$'
+
 def native_build(u, tmp):
     """compile the unit's source natively from /repo's working tree + the driver; returns exe path or (None, err)"""
     drv = os.path.join(VERIF, 'replay', 'native.c')
@@ -62,7 +64,9 @@ def replay(u, obs, prop, seed):
     if not rp:
         # default: the driver's test of the same name as the unit (alias/overlap variants share the base function's test)
         import re as _re
-        base = _re.sub(r'_(ovl|wu|wv|uv|wuv|ds|an|ad|ra|rb|ab|rab|ru|nq|nr|dq|dr|nqdr|nd|d3|d|null|p1|p2|p3|p4|multi|safety|int|pow2)$', '', u['name'])
+        base = u['name']
+        while _re.search(_SUF, base):
+            base = _re.sub(_SUF, '', base)
         rp = {'mpz_inp_raw': 'raw', 'mpz_inp_raw_p': 'raw', 'mpz_inp_raw_m': 'raw', 'mpz_out_raw': 'raw', 'mpz_out_raw_m': 'raw'}.get(base, base)
     if rp:
         tmp = tempfile.mkdtemp(prefix='mpir-replay.')
@@ -121,7 +125,9 @@ def structural(u, reason, prop, seed):
     d = os.path.join(VERIF, 'replay', 'out')
     os.makedirs(d, exist_ok=True)
     path = os.path.join(d, '%s.%s.structural.replay.txt' % (prop, u['name']))
-    base = _re.sub(r'_(ovl|wu|wv|uv|wuv|ds|an|ad|ra|rb|ab|rab|ru|nq|nr|dq|dr|nqdr|nd|d3|d|null|p1|p2|p3|p4|multi|safety|int|pow2)$', '', u['name'])
+base = u['name']
+    while _re.search(_SUF, base):
+        base = _re.sub(_SUF, '', base)
     fn = u.get('replay') or {'mpz_inp_raw': 'raw', 'mpz_inp_raw_p': 'raw', 'mpz_inp_raw_m': 'raw', 'mpz_out_raw': 'raw', 'mpz_out_raw_m': 'raw'}.get(base, base)
     lines = ['property: %s' % prop, 'unit: %s' % u['name'], 'source: %s' % u['source'],
              'obligation: the loop structure of the function under contract changed, so its inductive invariants no longer attach:',
